@@ -271,8 +271,10 @@ def _bind(chk, drv, stores, graphs, kf):
     stores_only = [t for t in singles if not t.get("api")]
     for off in range(0, len(stores_only), CH):
         chunk = stores_only[off:off + CH]
+        # (several store objects on one file behave like the polling style of EventLog.tla: no notification reaches the reader)
+        as_model = [dict(t, style="poll") if t["style"] == "handoff" else t for t in chunk]
         reached, res = tracecheck.conform(chk, "server/TraceEventLog.tla", "server/TraceEventLog.cfg",
-                                          {"subs": subs, "dev": bool(dev_mem), "traces": chunk},
+                                          {"subs": subs, "dev": bool(dev_mem), "traces": as_model},
                                           name="trace_%d" % off, workers=8)
         if res.violated:
             chk.note("conformance: model invariant %s fails on an inferred step of a real trace" % res.violated)
